@@ -91,7 +91,7 @@ def toDict {V : Type} (l : List (Str × V)) : List (String × V) :=
 
 /-- `Point._serialize_to_list` -/
 def serialize (fc : FieldCodec) (tc : TimeCodec) (compact : Bool) (p : Point) : List Str :=
-  [tc.iso p.time, if p.meas.isEmpty then noneS else p.meas.toList]
+  [tc.iso p.time, if measEmptyAsSentinel && p.meas.isEmpty then noneS else p.meas.toList]
   ++ p.tags.flatMap (fun kv => [tagPre compact ++ kv.1.toList, match kv.2 with | none => noneS | some v => v.toList])
   ++ p.fields.flatMap (fun kv => [fieldPre compact ++ kv.1.toList, match kv.2 with | none => noneS | some n => fc.repr n])
 
@@ -112,7 +112,7 @@ def deserialize (fc : FieldCodec) (tc : TimeCodec) : List Str → Option Point
 /-- what the format can carry (each excluded case has a counter-example theorem in `Props/C05.lean`) -/
 structure Codable (fc : FieldCodec) (tc : TimeCodec) (p : Point) : Prop where
   timeOk : tc.fromIso (tc.iso p.time) = some p.time
-  measOk : p.meas ≠ ""
+  measOk : measEmptyAsSentinel = true → p.meas ≠ ""
   tagKeys : (p.tags.map (·.1)).Nodup
   fieldKeys : (p.fields.map (·.1)).Nodup
   tagVals : ∀ kv ∈ p.tags, kv.2 ≠ some noneStr
